@@ -114,6 +114,7 @@ VMNative(name, x, args) ==
   CASE name = "_allocator" -> V1([t |-> "alloc"])
     [] name = "_setpath" -> SetPath(x, args[1], args[2])
     [] name = "_delpaths" -> DelPaths(x, args[1])
+    [] name = "_getpath" -> Native("getpath", x, <<args[1]>>)       \* getpath + release from the allocator (Heap.tla)
     [] name = "_break" -> [o |-> <<>>, e |-> Brk(x)]
     [] OTHER -> Native(name, x, args)
 IterNatives == {"_range"}
